@@ -78,6 +78,11 @@ CHECKS = {
   "note": "Trusted: numpy/scipy dense references, driver gdrv_sp. Sizes up to 12x10.",
   "technique": "property-based testing (Hypothesis) against dense reference implementations",
  },
+ "C13": {
+  "text": "Generated-input search: noisy determined networks with every cluster type decorated with from_dh/to_dh/bs_dh/fs_dh, extern, dist, angular unit, cov-band, degree input, banded covariances, perturbed or omitted approximate coordinates; the real binary writes --export (+ --xml); my own GKF reader compares export and original semantically (points, statuses, values, stdev / full covariance matrices in the unit of the values, heights, parameters), the exported coordinates with the run's final linearisation point, the export written without --xml with the one written with it; the export is adjusted again (same coordinates, adjusted observations, v'Pv, no linearisation iteration) and exported again (round 2 = round 3).",
+  "note": "Trusted: my GKF reader / XML result reader. Re-adjustment tolerances are tied to gama's own stopping criteria (0.0005 mm per observation, 0.1 cc on dh reductions times sight length). Cases in which gama removes a point (weak configuration) are left to C14/C20.",
+  "technique": "property-based round-trip / fixed-point testing (Hypothesis) of gama-local --export through the real binary",
+ },
  "C12": {
   "text": "Generated-input search: noisy networks with identifiers / descriptions / extern values containing XML specials, non-ASCII and long strings, generated --cov-band, angular unit, language and encoding; one run of the real binary writes XML, HTML, text and Octave; checks: well-formed XML with exact identifiers, gama's own XML reader equal to my reader field by field, HTML reader to HTML precision, text and Octave carrying the same coordinates and v'Pv, compare-xyz and gama-local-deformation on identical and translated epochs.",
   "note": "Trusted: Python expat + my reader as reference, small purpose-built readers of the text/Octave layouts. Two known findings about the HTML reader (entity-split identifiers, non-English labels) are excluded by tag.",
